@@ -40,7 +40,7 @@ CONFIGS: Dict[str, Dict[str, List[Dict[str, Any]]]] = {
         "thorough": [
             _c("default"), _c("n2p5", num_nodes=2, edge_probability=0.5), _c("n5p1", num_nodes=5, edge_probability=0.1),
             _c("n6p5", num_nodes=6, edge_probability=0.5), _c("n5p9", num_nodes=5, edge_probability=0.9),
-            _c("n20p5", num_nodes=20, edge_probability=0.5),
+            _c("n20p5", num_nodes=20, edge_probability=0.5), _c("n135big", num_nodes=135, edge_probability=0.05, light=140)
         ],
     },
     "Minesweeper": {
@@ -48,7 +48,7 @@ CONFIGS: Dict[str, Dict[str, List[Dict[str, Any]]]] = {
         "thorough": [
             _c("default"), _c("r2c2m1", rows=2, cols=2, mines=1), _c("r3c7m5", rows=3, cols=7, mines=5),
             _c("r6c4m23", rows=6, cols=4, mines=23),
-            _c("r4c5m3rw", rows=4, cols=5, mines=3, rewards=[2.0, -3.0, -5.0]), _c("r5c4m4rwint", rows=5, cols=4, mines=4, rewards=[2, -3, -5]), _c("cu_done_never", custom="done_never", rows=4, cols=5, mines=3, props=["C02", "C03"]), _c("cu_done_always", custom="done_always", rows=4, cols=5, mines=3, props=["C01", "C02", "C03"]), _c("cu_pyreward", custom="pyreward", rows=4, cols=5, mines=3, props=["C01", "C02", "C03"]), _c("cu_done_mixed", custom="done_mixed", rows=4, cols=5, mines=3, props=["C01", "C02", "C03"])
+            _c("r4c5m3rw", rows=4, cols=5, mines=3, rewards=[2.0, -3.0, -5.0]), _c("r5c4m4rwint", rows=5, cols=4, mines=4, rewards=[2, -3, -5]), _c("cu_done_never", custom="done_never", rows=4, cols=5, mines=3, props=["C02", "C03"]), _c("cu_done_always", custom="done_always", rows=4, cols=5, mines=3, props=["C01", "C02", "C03"]), _c("cu_pyreward", custom="pyreward", rows=4, cols=5, mines=3, props=["C01", "C02", "C03"]), _c("cu_done_mixed", custom="done_mixed", rows=4, cols=5, mines=3, props=["C01", "C02", "C03"]), _c("r16c17m40big", rows=16, cols=17, mines=40, light=240)
         ],
     },
     "RubiksCube": {
@@ -58,7 +58,7 @@ CONFIGS: Dict[str, Dict[str, List[Dict[str, Any]]]] = {
             _c("n4s7L20", cube_size=4, scrambles=7, time_limit=20), _c("n5s1L3", cube_size=5, scrambles=1, time_limit=3),
             _c("n3s0L2", cube_size=3, scrambles=0, time_limit=2), _c("n7s100L200", cube_size=7, scrambles=100, time_limit=200),
             _c("n6s2L1", cube_size=6, scrambles=2, time_limit=1), _c("n2s1L1", cube_size=2, scrambles=1, time_limit=1),
-            _c("n3s2L2", cube_size=3, scrambles=2, time_limit=2), _c("mk_partlyL3", make_id="RubiksCube-partly-scrambled-v0", cube_size=3, scrambles=7, time_limit=3), _c("mk_partlyL33", make_id="RubiksCube-partly-scrambled-v0", cube_size=3, scrambles=7, time_limit=33), _c("mk_L2", make_id="RubiksCube-v0", time_limit=2), _c("cu_pyreward", custom="pyreward", time_limit=6, props=["C01", "C02", "C03"])
+            _c("n3s2L2", cube_size=3, scrambles=2, time_limit=2), _c("mk_partlyL3", make_id="RubiksCube-partly-scrambled-v0", cube_size=3, scrambles=7, time_limit=3), _c("mk_partlyL33", make_id="RubiksCube-partly-scrambled-v0", cube_size=3, scrambles=7, time_limit=33), _c("mk_L2", make_id="RubiksCube-v0", time_limit=2), _c("cu_pyreward", custom="pyreward", time_limit=6, props=["C01", "C02", "C03"]), _c("n2s2L5np", cube_size=2, scrambles=2, time_limit=5, tl_type="np.int32")
         ],
     },
     "SlidingTilePuzzle": {
@@ -66,7 +66,7 @@ CONFIGS: Dict[str, Dict[str, List[Dict[str, Any]]]] = {
         "thorough": [
             _c("default"), _c("g2m5L3", grid_size=2, moves=5, time_limit=3), _c("g3m20L7", grid_size=3, moves=20, time_limit=7),
             _c("g4m50sparse", grid_size=4, moves=50, reward="sparse", time_limit=30), _c("g3m1L2", grid_size=3, moves=1, time_limit=2),
-            _c("g2m0L1", grid_size=2, moves=0, time_limit=1), _c("g3m3sparse", grid_size=3, moves=3, reward="sparse", time_limit=20), _c("mk_L3", make_id="SlidingTilePuzzle-v0", time_limit=3), _c("cu_pyreward", custom="pyreward", time_limit=6, props=["C01", "C02", "C03"])
+            _c("g2m0L1", grid_size=2, moves=0, time_limit=1), _c("g3m3sparse", grid_size=3, moves=3, reward="sparse", time_limit=20), _c("mk_L3", make_id="SlidingTilePuzzle-v0", time_limit=3), _c("cu_pyreward", custom="pyreward", time_limit=6, props=["C01", "C02", "C03"]), _c("g3m9L5np", grid_size=3, moves=9, time_limit=5, tl_type="np.int64")
         ],
     },
     "Sudoku": {
@@ -100,7 +100,7 @@ CONFIGS: Dict[str, Dict[str, List[Dict[str, Any]]]] = {
             _c("default"), _c("r1c1", row_blocks=1, col_blocks=1), _c("r1c3", row_blocks=1, col_blocks=3),
             _c("r2c2", row_blocks=2, col_blocks=2), _c("r3c2block", row_blocks=3, col_blocks=2, reward="block"),
             _c("toyrot", gen="toy_rot"), _c("toynorot", gen="toy_norot", reward="block"), _c("r2c3", row_blocks=2, col_blocks=3),
-            _c("r4c2", row_blocks=4, col_blocks=2), _c("r3c2", row_blocks=3, col_blocks=2), _c("r4c3", row_blocks=4, col_blocks=3), _c("cu_pyreward", custom="pyreward", props=["C01", "C02", "C03"])
+            _c("r4c2", row_blocks=4, col_blocks=2), _c("r3c2", row_blocks=3, col_blocks=2), _c("r4c3", row_blocks=4, col_blocks=3), _c("cu_pyreward", custom="pyreward", props=["C01", "C02", "C03"]), _c("r8c16big", row_blocks=8, col_blocks=16, light=140, props=["C06"])
         ],
     },
     "JobShop": {
@@ -115,7 +115,7 @@ CONFIGS: Dict[str, Dict[str, List[Dict[str, Any]]]] = {
         "thorough": [
             _c("default"), _c("n3b05", items=3, budget=0.5), _c("n10b2sparse", items=10, budget=2.0, reward="sparse"),
             _c("n10b2", items=10, budget=2.0), _c("n50sparse", items=50, budget=12.5, reward="sparse"),
-            _c("grid12b2", gen="grid", items=12, budget=2.0), _c("grid8b1sparse", gen="grid", items=8, budget=1.0, reward="sparse"), _c("n8b3int", items=8, budget=3), _c("cu_pyreward", custom="pyreward", props=["C01", "C02", "C03"]), _c("dec14b2", gen="decimal", items=14, budget=2.0), _c("dec10b1p3sparse", gen="decimal", items=10, budget=1.3, reward="sparse"), _c("dec30b3p15", gen="decimal", items=30, budget=3.15)
+            _c("grid12b2", gen="grid", items=12, budget=2.0), _c("grid8b1sparse", gen="grid", items=8, budget=1.0, reward="sparse"), _c("n8b3int", items=8, budget=3), _c("cu_pyreward", custom="pyreward", props=["C01", "C02", "C03"]), _c("dec14b2", gen="decimal", items=14, budget=2.0), _c("dec10b1p3sparse", gen="decimal", items=10, budget=1.3, reward="sparse"), _c("dec30b3p15", gen="decimal", items=30, budget=3.15), _c("n300big", items=300, budget=40.0, light=310)
         ],
     },
     "Tetris": {
@@ -123,18 +123,18 @@ CONFIGS: Dict[str, Dict[str, List[Dict[str, Any]]]] = {
         "thorough": [
             _c("default"), _c("r4c4L3", rows=4, cols=4, time_limit=3), _c("r6c5L3", rows=6, cols=5, time_limit=3), _c("r6c5L7", rows=6, cols=5, time_limit=7),
             _c("r5c12L30", rows=5, cols=12, time_limit=30), _c("r10c6L2", rows=10, cols=6, time_limit=2),
-            _c("r7c4L1", rows=7, cols=4, time_limit=1), _c("r5c8L12", rows=5, cols=8, time_limit=12), _c("mk_L4", make_id="Tetris-v0", time_limit=4)
+            _c("r7c4L1", rows=7, cols=4, time_limit=1), _c("r5c8L12", rows=5, cols=8, time_limit=12), _c("mk_L4", make_id="Tetris-v0", time_limit=4), _c("r6c5L4np", rows=6, cols=5, time_limit=4, tl_type="np.int64")
         ],
     },
     "Cleaner": {
         "quick": [_c("default"), _c("r5c11a2L7", rows=5, cols=11, agents=2, time_limit=7), _c("r4c7a1", rows=4, cols=7, agents=1), _c("r7c4a2", rows=7, cols=4, agents=2),
-                  _c("r6c5a2pint", rows=6, cols=5, agents=2, penalty=1), _c("r5c6a2p0", rows=5, cols=6, agents=2, penalty=0.0)],
+                  _c("r6c5a2pint", rows=6, cols=5, agents=2, penalty=1), _c("r5c6a2p0", rows=5, cols=6, agents=2, penalty=0.0), _c("r5c6a2L5np", rows=5, cols=6, agents=2, time_limit=5, tl_type="np.int32")],
         "thorough": [
             _c("default"), _c("r5c5a1", rows=5, cols=5, agents=1), _c("r5c11a2L7", rows=5, cols=11, agents=2, time_limit=7),
             _c("r11c5a3p0", rows=11, cols=5, agents=3, penalty=0.0), _c("r3c3a4L3", rows=3, cols=3, agents=4, time_limit=3),
             _c("r7c9a2L2", rows=7, cols=9, agents=2, time_limit=2), _c("r9c7a2L1", rows=9, cols=7, agents=2, time_limit=1),
             _c("r5c11a2", rows=5, cols=11, agents=2), _c("r4c7a1", rows=4, cols=7, agents=1), _c("r7c4a2", rows=7, cols=4, agents=2),
-            _c("r6c5a2pint", rows=6, cols=5, agents=2, penalty=1), _c("r5c6a2p0", rows=5, cols=6, agents=2, penalty=0.0), _c("mk_L5", make_id="Cleaner-v0", time_limit=5)
+            _c("r6c5a2pint", rows=6, cols=5, agents=2, penalty=1), _c("r5c6a2p0", rows=5, cols=6, agents=2, penalty=0.0), _c("mk_L5", make_id="Cleaner-v0", time_limit=5), _c("r5c6a2L5np", rows=5, cols=6, agents=2, time_limit=5, tl_type="np.int32")
         ],
     },
     "Connector": {
@@ -146,7 +146,7 @@ CONFIGS: Dict[str, Dict[str, List[Dict[str, Any]]]] = {
             _c("w5a8L20", grid_size=5, agents=8, time_limit=20), _c("u4a3L2", gen="uniform", grid_size=4, agents=3, time_limit=2),
             _c("w6a4L1", grid_size=6, agents=4, time_limit=1), _c("u6a4", gen="uniform", grid_size=6, agents=4),
             _c("u5a4rwL20", gen="uniform", grid_size=5, agents=4, time_limit=20, reward_coeffs=[2.0, -0.5]),
-            _c("w5a3rwintL15", grid_size=5, agents=3, time_limit=15, reward_coeffs=[3, -1]), _c("mk_L4", make_id="Connector-v2", time_limit=4)
+            _c("w5a3rwintL15", grid_size=5, agents=3, time_limit=15, reward_coeffs=[3, -1]), _c("mk_L4", make_id="Connector-v2", time_limit=4), _c("u5a3L6np", gen="uniform", grid_size=5, agents=3, time_limit=6, tl_type="np.int64")
         ],
     },
     "CVRP": {
@@ -154,7 +154,7 @@ CONFIGS: Dict[str, Dict[str, List[Dict[str, Any]]]] = {
         "thorough": [
             _c("default"), _c("n2c2d2", nodes=2, cap=2, demand=2), _c("n5c10d10", nodes=5, cap=10, demand=10),
             _c("n10c3d3sparse", nodes=10, cap=3, demand=3, reward="sparse"), _c("n10c3d3", nodes=10, cap=3, demand=3),
-            _c("n20sparse", nodes=20, cap=30, demand=10, reward="sparse"), _c("cu_pyreward", custom="pyreward", props=["C01", "C02", "C03"]), _c("pad12c9d4", gen="padded", nodes=12, cap=9, demand=4, props=["C01", "C02", "C03", "C04", "C05", "C06", "C08", "C09", "C11", "C12"])
+            _c("n20sparse", nodes=20, cap=30, demand=10, reward="sparse"), _c("cu_pyreward", custom="pyreward", props=["C01", "C02", "C03"]), _c("pad12c9d4", gen="padded", nodes=12, cap=9, demand=4, props=["C01", "C02", "C03", "C04", "C05", "C06", "C08", "C09", "C11", "C12"]), _c("n135big", nodes=135, cap=40, demand=9, light=280)
         ],
     },
     "LevelBasedForaging": {
@@ -172,15 +172,15 @@ CONFIGS: Dict[str, Dict[str, List[Dict[str, Any]]]] = {
             _c("g6a3f2v1L20", grid_size=6, agents=3, food=2, fov=1, time_limit=20),
             # constructor arguments given as Python ints where floats are documented (dtype promotion paths)
             _c("g6a2f2v6rawpenintL15", grid_size=6, agents=2, food=2, fov=6, normalize=False, penalty=1, time_limit=15),
-            _c("g6a2f2v2gridpenint", grid_size=6, agents=2, food=2, fov=2, grid_obs=True, penalty=2, time_limit=25), _c("mk_L5", make_id="LevelBasedForaging-v0", time_limit=5), _c("g8a2f6v8L30", grid_size=8, agents=2, food=6, fov=8, time_limit=30, c10_keys={"quick": 3000, "thorough": 12000}), _c("g10a3f12v3L30", grid_size=10, agents=3, food=12, fov=3, time_limit=30)
+            _c("g6a2f2v2gridpenint", grid_size=6, agents=2, food=2, fov=2, grid_obs=True, penalty=2, time_limit=25), _c("mk_L5", make_id="LevelBasedForaging-v0", time_limit=5), _c("g8a2f6v8L30", grid_size=8, agents=2, food=6, fov=8, time_limit=30, c10_keys={"quick": 3000, "thorough": 12000}), _c("g10a3f12v3L30", grid_size=10, agents=3, food=12, fov=3, time_limit=30), _c("g6a2f2v6L6np", grid_size=6, agents=2, food=2, fov=6, time_limit=6, tl_type="np.int64")
         ],
     },
     "Maze": {
-        "quick": [_c("default"), _c("r5c9L7", rows=5, cols=9, time_limit=7), _c("r4c7", rows=4, cols=7), _c("r7c4", rows=7, cols=4), _c("mk_L4", make_id="Maze-v0", time_limit=4)],
+        "quick": [_c("default"), _c("r5c9L7", rows=5, cols=9, time_limit=7), _c("r4c7", rows=4, cols=7), _c("r7c4", rows=7, cols=4), _c("mk_L4", make_id="Maze-v0", time_limit=4), _c("r5c6L6np", rows=5, cols=6, time_limit=6, tl_type="np.int64")],
         "thorough": [
             _c("default"), _c("r3c3", rows=3, cols=3), _c("r5c9L7", rows=5, cols=9, time_limit=7), _c("r9c4L3", rows=9, cols=4, time_limit=3),
             _c("toy", gen="toy"), _c("r5c9", rows=5, cols=9), _c("r7c6L2", rows=7, cols=6, time_limit=2), _c("r6c7L1", rows=6, cols=7, time_limit=1),
-            _c("r4c7", rows=4, cols=7), _c("r7c4", rows=7, cols=4), _c("mk_L4", make_id="Maze-v0", time_limit=4)
+            _c("r4c7", rows=4, cols=7), _c("r7c4", rows=7, cols=4), _c("mk_L4", make_id="Maze-v0", time_limit=4), _c("r5c6L6np", rows=5, cols=6, time_limit=6, tl_type="np.int64")
         ],
     },
     # MMST: the class docstring documents `connected_nodes` as (num_agents, time_limit); a user generator whose `max_step` buffer
@@ -202,7 +202,7 @@ CONFIGS: Dict[str, Dict[str, List[Dict[str, Any]]]] = {
             _c("n20e30d3a3p3", nodes=20, edges=30, degree=3, agents=3, per_agent=3, time_limit=30),
             _c("n13e20d5a2p3", nodes=13, edges=20, degree=5, agents=2, per_agent=3, time_limit=30),
             _c("n10e16d5a3p2", nodes=10, edges=16, degree=5, agents=3, per_agent=2, time_limit=20),
-            _c("n12e22d6a4p2", nodes=12, edges=22, degree=6, agents=4, per_agent=2, time_limit=20), _c("mk_L6", make_id="MMST-v0", time_limit=6), _c("n12e18d5a2p3ms9L14", nodes=12, edges=18, degree=5, agents=2, per_agent=3, time_limit=14, max_step=9, props=["C01", "C03", "C11"]), _c("n12e18d5a2p3ms30L6", nodes=12, edges=18, degree=5, agents=2, per_agent=3, time_limit=6, max_step=30)
+            _c("n12e22d6a4p2", nodes=12, edges=22, degree=6, agents=4, per_agent=2, time_limit=20), _c("mk_L6", make_id="MMST-v0", time_limit=6), _c("n12e18d5a2p3ms9L14", nodes=12, edges=18, degree=5, agents=2, per_agent=3, time_limit=14, max_step=9, props=["C01", "C03", "C11"]), _c("n12e18d5a2p3ms30L6", nodes=12, edges=18, degree=5, agents=2, per_agent=3, time_limit=6, max_step=30), _c("n12e18d5a2p3L6np", nodes=12, edges=18, degree=5, agents=2, per_agent=3, time_limit=6, tl_type="np.int64")
         ],
     },
     "MultiCVRP": {
@@ -215,7 +215,7 @@ CONFIGS: Dict[str, Dict[str, List[Dict[str, Any]]]] = {
     "PacMan": {
         "quick": [_c("default"), _c("L7", time_limit=7), _c("small12x13L40", maze="small", time_limit=40), _c("small12x13L400", maze="small", time_limit=400)],
         "thorough": [_c("default"), _c("L1", time_limit=1), _c("L2", time_limit=2), _c("L3", time_limit=3), _c("L7", time_limit=7), _c("L60", time_limit=60),
-                     _c("small12x13L40", maze="small", time_limit=40), _c("small12x13L3", maze="small", time_limit=3), _c("small12x13L400", maze="small", time_limit=400), _c("mk_L5", make_id="PacMan-v1", time_limit=5)],
+                     _c("small12x13L40", maze="small", time_limit=40), _c("small12x13L3", maze="small", time_limit=3), _c("small12x13L400", maze="small", time_limit=400), _c("mk_L5", make_id="PacMan-v1", time_limit=5), _c("L6np", time_limit=6, tl_type="np.int64")],
     },
     "RobotWarehouse": {
         "quick": [_c("default"), _c("s2x1h3a2r1q2L7", shelf_rows=2, shelf_cols=1, height=3, agents=2, sensor=1, queue=2, time_limit=7),
@@ -228,17 +228,17 @@ CONFIGS: Dict[str, Dict[str, List[Dict[str, Any]]]] = {
             _c("s2x1h3a2r1q2L2", shelf_rows=2, shelf_cols=1, height=3, agents=2, sensor=1, queue=2, time_limit=2),
             _c("s1x3h3a1r1q2L1", shelf_rows=1, shelf_cols=3, height=3, agents=1, sensor=1, queue=2, time_limit=1),
             _c("s1x5h2a4r1q3L9", shelf_rows=1, shelf_cols=5, height=2, agents=4, sensor=1, queue=3, time_limit=9),
-            _c("s1x7h1a5r2q4", shelf_rows=1, shelf_cols=7, height=1, agents=5, sensor=2, queue=4, time_limit=40), _c("mk_L4", make_id="RobotWarehouse-v0", time_limit=4)
+            _c("s1x7h1a5r2q4", shelf_rows=1, shelf_cols=7, height=1, agents=5, sensor=2, queue=4, time_limit=40), _c("mk_L4", make_id="RobotWarehouse-v0", time_limit=4), _c("s2x1h3a2r1q2L6np", shelf_rows=2, shelf_cols=1, height=3, agents=2, sensor=1, queue=2, time_limit=6, tl_type="np.int64")
         ],
     },
     "Snake": {
         "quick": [_c("default"), _c("r3c5L7", rows=3, cols=5, time_limit=7), _c("r3c4L60", rows=3, cols=4, time_limit=60), _c("mk_L5", make_id="Snake-v1", time_limit=5),
-                  _c("r4c4L200", rows=4, cols=4, time_limit=200), _c("r2c3L40", rows=2, cols=3, time_limit=40), _c("r8c17L9500", rows=8, cols=17, time_limit=9500, deep=["complete", 9500])],
+                  _c("r4c4L200", rows=4, cols=4, time_limit=200), _c("r2c3L40", rows=2, cols=3, time_limit=40), _c("r8c17L9500", rows=8, cols=17, time_limit=9500, deep=["complete", 9500]), _c("r4c5L6np", rows=4, cols=5, time_limit=6, tl_type="np.int64")],
         "thorough": [
             _c("default"), _c("r2c2L3", rows=2, cols=2, time_limit=3), _c("r3c5L7", rows=3, cols=5, time_limit=7),
             _c("r6c4L200", rows=6, cols=4, time_limit=200), _c("r4c6L2", rows=4, cols=6, time_limit=2), _c("r5c3L1", rows=5, cols=3, time_limit=1),
             _c("r3c4L60", rows=3, cols=4, time_limit=60), _c("mk_L5", make_id="Snake-v1", time_limit=5),
-            _c("r4c4L200", rows=4, cols=4, time_limit=200), _c("r2c3L40", rows=2, cols=3, time_limit=40), _c("r5c6L500", rows=5, cols=6, time_limit=500), _c("r8c17L9500", rows=8, cols=17, time_limit=9500, deep=["complete", 9500])
+            _c("r4c4L200", rows=4, cols=4, time_limit=200), _c("r2c3L40", rows=2, cols=3, time_limit=40), _c("r5c6L500", rows=5, cols=6, time_limit=500), _c("r8c17L9500", rows=8, cols=17, time_limit=9500, deep=["complete", 9500]), _c("r4c5L6np", rows=4, cols=5, time_limit=6, tl_type="np.int64")
         ],
     },
     "Sokoban": {
@@ -247,12 +247,12 @@ CONFIGS: Dict[str, Dict[str, List[Dict[str, Any]]]] = {
         "thorough": [
             _c("toy", gen="toy"), _c("simple", gen="simple"), _c("randL7", gen="harness", border=False, time_limit=7),
             _c("randborder", gen="harness", border=True, time_limit=60), _c("randsparseL3", gen="harness", border=False, reward="sparse", time_limit=3),
-            _c("toyL2", gen="toy", time_limit=2), _c("simpleL1", gen="simple", time_limit=1), _c("rand", gen="harness", border=False, time_limit=40), _c("cu_pyreward", custom="pyreward", time_limit=6, props=["C01", "C02", "C03"])
+            _c("toyL2", gen="toy", time_limit=2), _c("simpleL1", gen="simple", time_limit=1), _c("rand", gen="harness", border=False, time_limit=40), _c("cu_pyreward", custom="pyreward", time_limit=6, props=["C01", "C02", "C03"]), _c("toyL5np", gen="toy", time_limit=5, tl_type="np.int64")
         ],
     },
     "TSP": {
         "quick": [_c("default"), _c("n5sparse", cities=5, reward="sparse"), _c("n4", cities=4), _c("cu_pyreward", custom="pyreward", props=["C01", "C02", "C03"])],
-        "thorough": [_c("default"), _c("n1", cities=1), _c("n2", cities=2), _c("n5sparse", cities=5, reward="sparse"), _c("n5", cities=5), _c("n20sparse", cities=20, reward="sparse"), _c("n4", cities=4), _c("cu_pyreward", custom="pyreward", props=["C01", "C02", "C03"])],
+        "thorough": [_c("default"), _c("n1", cities=1), _c("n2", cities=2), _c("n5sparse", cities=5, reward="sparse"), _c("n5", cities=5), _c("n20sparse", cities=20, reward="sparse"), _c("n4", cities=4), _c("cu_pyreward", custom="pyreward", props=["C01", "C02", "C03"]), _c("n140big", cities=140, light=150)],
     },
 }
 
@@ -330,6 +330,11 @@ def build(env: str, cfg: Dict[str, Any]):
 
     c = {k: v for k, v in cfg.items() if k != "id"}
     tl = {"time_limit": c["time_limit"]} if "time_limit" in c else {}
+    if "tl_type" in c and tl:
+        # the limit handed over as a NumPy / JAX integer scalar (np.prod(shape), an entry of np.arange ...) instead of a built-in int
+        import numpy as _np
+
+        tl = {"time_limit": {"np.int64": _np.int64, "np.int32": _np.int32, "jnp.int32": lambda v: jnp.asarray(v, jnp.int32)}[c["tl_type"]](c["time_limit"])}
     if "custom" in c:
         return _build_custom(env, c)
     if "make_id" in c:
